@@ -31,6 +31,7 @@ Form ==
        /\ (E.outs["group"] # E.outs["func"]) => Report("C14", "Group method differs from package function: " \o E.name)
        /\ (E.outs["grouptail"] # E.outs["functail"]) => Report("C14", "Group method does not return the statement it appended: " \o E.name)
        /\ (E.render # E.gostring \/ E.render # E.withfile) => Report("C14", "GoString / Render / RenderWithFile disagree: " \o E.name)
+       /\ (E.nv_stmt # E.nv_func \/ E.nv_group # E.nv_func) => Report("C14", "forms differ when called without variadic operands: " \o E.name)
        /\ (E.one_group # E.one_func) => Report("C14", "Group method with one argument differs from the package function: " \o E.name)
        /\ (E.arg_after # E.arg_before) => Report("C14", "Group method returns the caller's own statement instead of the new one: " \o E.name)
        /\ (E.log # FormLog(E.name, E.iscallback)) => Report("C14", "callback not run exactly once inside the constructing call: " \o E.name)
